@@ -22,11 +22,15 @@
 //!    indirect call always;
 //!  * uses at a call (declared extern parameters, standard parameters and target of an indirect call,
 //!    must-parameters of an internal callee) do not need a return site and do not need the callee to
-//!    return: the entry value *is* read. Such uses get a qualified class (`...:no-return-site`,
-//!    `...:noreturn-symbol`, `...:only-on-nonreturning-callee-path`, extern parameters declared as a
-//!    sub-register expression `...:subregister-expr`). A miss all of whose exposed uses are qualified gets the
-//!    signature `miss-qualified:<root causes>` and a proposed known-finding key (inert until registered);
-//!    a miss with at least one ordinary exposed use gets `miss:<class>` and never a key;
+//!    return: the entry value *is* read. Two structural situations are open known findings and give the use a
+//!    qualified class: the call jump has no return site (`...:no-return-site`, no CFG edge leaves the call) and
+//!    the read is inherited from an internal callee only on callee paths that never reach a `Return`
+//!    (`callee-param:only-on-nonreturning-callee-path`); a use inherited from a callee all of whose uses are
+//!    qualified inherits their causes (`callee-param:via-callee:<causes>`). Parameters of `no_return` symbols
+//!    and parameters declared as sub-register expressions are ordinary uses (both were fixed in /repo).
+//!    A miss all of whose exposed uses are qualified gets the signature `miss-qualified:<root causes>` and the
+//!    known-finding key of its cause (or the combination key); a miss with at least one ordinary exposed use
+//!    gets `miss:<class>` and never a key;
 //!  * only the integer parameter registers of the (single) calling convention are judged; variables
 //!    with a register name but another size and registers outside `register_set` are never generated;
 //!  * the fixpoint's step limit (100 visits per node) is not reachable with <= 8 blocks per function;
@@ -52,7 +56,7 @@ pub fn info() -> CheckInfo {
             "extern symbols have generic names (no hand-written stub of the analysis applies)",
             "a bare `Store [a] := R` is demanded only when `a` provably cannot be a stack address; Return expressions and indirect jumps without CFG edges are not demanded (DESIGN.md C14)",
             "a panic of normalize_optimize is not judged here (inconclusive); a panic of the CFG builder or of compute_function_signatures, or no result within 60 s, is a violation",
-            "known-finding keys (c14-extern-param-subregister-expr, c14-param-of-noreturn-extern, c14-call-without-return-site, c14-callee-reads-on-nonreturning-path, c14-combination-of-known-causes) are attached only when every upward-exposed use of the missed register is of the corresponding qualified class",
+            "known-finding keys (c14-call-without-return-site, c14-callee-reads-on-nonreturning-path, c14-combination-of-known-causes) are attached only when every upward-exposed use of the missed register has that structural cause: the call jump has no return site / the read is inherited from an internal callee only along callee paths that never reach a Return",
         ],
         run,
         replay,
@@ -382,17 +386,11 @@ impl<'a> Oracle<'a> {
                     if let Some(ext) = self.extern_of(target) {
                         for p in &ext.parameters {
                             if let Arg::Register { expr, .. } = p {
-                                let mut class = String::from("extern-param");
-                                if !matches!(expr, Expression::Var(_)) {
-                                    class += ":subregister-expr";
-                                }
-                                if ext.no_return {
-                                    class += ":noreturn-symbol";
-                                } else {
-                                    class += site;
-                                }
-                                // nothing flows back from a symbol that does not return
-                                on_use(self.emask(expr), alive, &class, !ext.no_return && return_.is_some(), true);
+                                // Declared parameters are ordinary uses, whatever the form of the argument expression
+                                // (sub-register pieces included) and whether or not the symbol returns. Only the
+                                // structural cause "the call has no return site" qualifies the use.
+                                let class = format!("extern-param{site}");
+                                on_use(self.emask(expr), alive, &class, return_.is_some(), true);
                             }
                         }
                     } else if let Some(c) = self.sub_index.get(target) {
@@ -582,13 +580,15 @@ fn is_qualified(class: &str) -> bool {
     class.contains(':')
 }
 
-/// Root causes a qualified class can name: (qualifier in a direct class, name of the root cause, proposed known-finding key).
-const ROOTS: [(&str, &str, &str); 4] = [
-    (":subregister-expr", "extern-param-is-subregister-expr", "c14-extern-param-subregister-expr"),
-    (":noreturn-symbol", "param-of-noreturn-extern", "c14-param-of-noreturn-extern"),
-    (":no-return-site", "call-without-return-site", "c14-call-without-return-site"),
-    (":only-on-nonreturning-callee-path", "callee-reads-only-on-nonreturning-path", "c14-callee-reads-on-nonreturning-path"),
+/// Root causes a qualified class can name: (qualifier in a direct class, name of the root cause, known-finding key).
+const ROOTS: [(&str, &str, &str); 2] = [
+    (":no-return-site", "call-without-return-site", KNOWN_NO_RETURN_SITE),
+    (":only-on-nonreturning-callee-path", "callee-reads-only-on-nonreturning-path", KNOWN_NONRETURNING_CALLEE_PATH),
 ];
+/// A read at a call jump without return site (no CFG edge leaves the call, the analysis computes call effects on edges).
+pub const KNOWN_NO_RETURN_SITE: &str = "c14-call-without-return-site";
+/// A read inherited from an internal callee that happens only on callee paths that never reach a `Return`.
+pub const KNOWN_NONRETURNING_CALLEE_PATH: &str = "c14-callee-reads-on-nonreturning-path";
 pub const KNOWN_COMBINATION: &str = "c14-combination-of-known-causes";
 
 fn roots_of(class: &str) -> u8 {
@@ -1458,8 +1458,69 @@ fn run(cfg: &Cfg) -> Report {
     rep
 }
 
+// ---------------------------------------------------------------------------------------------
+// Hand-written minimal witnesses of the known findings (replay case `{"witness": "<key>"}`)
+
+pub fn builtin_witness(key: &str) -> Option<Project> {
+    let t = |p: &str, n: u32| tid(&format!("{p}_{n}"), &format!("{:06x}", 0x1000 + n * 4));
+    let b = |f: &str, i: u32| tid(&format!("blk_{f}_{i}"), &format!("{f}{i:02}"));
+    let ext_fn = extern_symbol("ext_fn_1", tid("sub_ext_fn_1", "ext_fn_1"), &["RDI", "RSI"], Some("RAX"), false);
+    let halt_params: &[&str] = if key == KNOWN_COMBINATION { &[] } else { &["RDI"] };
+    let ext_halt = extern_symbol("ext_halt_3", tid("sub_ext_halt_3", "ext_halt_3"), halt_params, None, true);
+    let f0 = tid("sub_f0", "f000");
+    let f1 = tid("sub_f1", "f100");
+    let ret = |n: u32| jmp(t("jmp", n), Jmp::Return(e_reg("RAX")));
+    // f1(…, x): y = x; ext_halt_3(…)   — reads RSI (and passes RDI on), never returns
+    let callee = sub(
+        f1.clone(),
+        "f1",
+        vec![blk(b("f1", 0), vec![assign(t("def", 20), reg("RDX"), e_reg("RSI"))], vec![jmp(t("call", 21), Jmp::Call { target: ext_halt.tid.clone(), return_: Some(b("f1", 0)) })])],
+    );
+    let subs = match key {
+        // f0(a, b): ext_fn_1(a, b) as a call without return site (tail call / no fall-through known)
+        KNOWN_NO_RETURN_SITE => vec![sub(f0.clone(), "f0", vec![blk(b("f0", 0), vec![], vec![jmp(t("call", 1), Jmp::Call { target: ext_fn.tid.clone(), return_: None })])])],
+        // f0(a, b): f1(a, b); return      — f1 reads both but never returns
+        KNOWN_NONRETURNING_CALLEE_PATH => vec![
+            sub(
+                f0.clone(),
+                "f0",
+                vec![blk(b("f0", 0), vec![], vec![jmp(t("call", 1), Jmp::Call { target: f1.clone(), return_: Some(b("f0", 1)) })]), blk(b("f0", 1), vec![], vec![ret(2)])],
+            ),
+            callee,
+        ],
+        // f0(_, b): if (ZF) f1(_, b) else ext_fn_1(_, b) without return site; return
+        KNOWN_COMBINATION => vec![
+            sub(
+                f0.clone(),
+                "f0",
+                vec![
+                    blk(
+                        b("f0", 0),
+                        vec![assign(t("def", 1), reg("RDI"), e_const(0, 8))],
+                        vec![jmp(t("jmp", 2), Jmp::CBranch { target: b("f0", 1), condition: e_var(&var("ZF", 1)) }), jmp(t("jmp", 3), Jmp::Branch(b("f0", 2)))],
+                    ),
+                    blk(b("f0", 1), vec![], vec![jmp(t("call", 4), Jmp::Call { target: f1.clone(), return_: Some(b("f0", 3)) })]),
+                    blk(b("f0", 2), vec![], vec![jmp(t("call", 5), Jmp::Call { target: ext_fn.tid.clone(), return_: None })]),
+                    blk(b("f0", 3), vec![], vec![ret(6)]),
+                ],
+            ),
+            callee,
+        ],
+        _ => return None,
+    };
+    Some(project_x64(program(subs, vec![ext_fn, ext_halt], Some(f0))))
+}
+
 fn replay(_cfg: &Cfg, case: &Value) -> Report {
     let mut rep = Report::new();
+    if let Some(key) = case["witness"].as_str() {
+        match guard(|| builtin_witness(key)) {
+            Ok(Some(raw)) => check_case(&raw, false, &mut rep, true),
+            Ok(None) => rep.note(format!("unknown built-in witness {key}")),
+            Err(m) => rep.note(format!("building the witness {key} panicked: {m}")),
+        }
+        return rep;
+    }
     match project_from_json(&case["project"]) {
         Ok(raw) => {
             let optimize = case["optimize"].as_bool().unwrap_or(false);
